@@ -306,10 +306,9 @@ func (idx *HNSWIndex) Add(vector VectorNode) error {
 
 // Remove performs soft delete using roaring bitmap.
 //
-// CONCURRENCY OPTIMIZATION:
-// - Uses read lock first (cheaper) to check if node exists
-// - Only acquires write lock for the actual bitmap modification
-// - Minimizes write lock contention
+// CONCURRENCY:
+// - Checks if node exists and marks it deleted in ONE write-locked critical section
+// - Releasing the lock in between lets two concurrent Removes of an ID both succeed
 //
 // SOFT DELETE MECHANISM:
 // Instead of immediately removing (expensive O(n × M × L)),
@@ -323,14 +322,14 @@ func (idx *HNSWIndex) Remove(vector VectorNode) error {
 	id := vector.ID()
 
 	// ════════════════════════════════════════════════════════════════════════
-	// STEP 1: CHECK EXISTENCE (READ LOCK - CHEAPER)
+	// STEP 1: CHECK EXISTENCE (WRITE LOCK - HELD UNTIL THE BITMAP UPDATE)
 	// ════════════════════════════════════════════════════════════════════════
-	idx.mu.RLock()
+	idx.mu.Lock()
+	defer idx.mu.Unlock()
 	_, exists := idx.nodes[id]
 	alreadyDeleted := idx.deletedNodes.Contains(id)
-	idx.mu.RUnlock()
 
-	// Fast-fail validation outside of write lock
+	// Fast-fail validation before the bitmap is touched
 	if !exists {
 		return fmt.Errorf("node %d not found", id)
 	}
@@ -339,11 +338,9 @@ func (idx *HNSWIndex) Remove(vector VectorNode) error {
 	}
 
 	// ════════════════════════════════════════════════════════════════════════
-	// STEP 2: MARK AS DELETED (WRITE LOCK - ONLY FOR BITMAP UPDATE)
+	// STEP 2: MARK AS DELETED (SAME CRITICAL SECTION)
 	// ════════════════════════════════════════════════════════════════════════
-	idx.mu.Lock()
 	idx.deletedNodes.Add(id)
-	idx.mu.Unlock()
 
 	return nil
 }
